@@ -40,6 +40,30 @@ theorem euclid_isSeminormR (d : ℕ) : IsSeminormR (euclid d) := by
     have sB := Real.sq_sqrt hB
     nlinarith [Real.sqrt_nonneg A, Real.sqrt_nonneg B]
 
+theorem list_range_sum (d : ℕ) (F : ℕ → ℝ) : ((List.range d).map F).sum = ∑ a ∈ range d, F a := by
+  induction d with
+  | zero => simp
+  | succ d ih => simp [List.range_succ, Finset.sum_range_succ, ih]
+
+/-- the Euclidean unit ball is the polar of the Euclidean norm (Cauchy–Schwarz): a rational vector with `Σ g_a² ≤ 1`
+pairs with any `v` to at most `‖v‖₂` -/
+theorem euclid_polar (d : ℕ) (g : ℕ → ℚ) (hg : sumTo d (fun a => g a * g a) ≤ 1) (v : ℕ → ℝ) :
+    ((List.range d).map fun a => ((g a : ℚ) : ℝ) * v a).sum ≤ euclid d v := by
+  rw [list_range_sum]
+  have hgR : ∑ a ∈ range d, ((g a : ℚ) : ℝ) ^ 2 ≤ 1 := by
+    have : ((sumTo d (fun a => g a * g a) : ℚ) : ℝ) ≤ 1 := by exact_mod_cast hg
+    rw [cast_sumTo, list_range_sum] at this
+    refine le_trans (le_of_eq (Finset.sum_congr rfl fun a _ => ?_)) this
+    push_cast; ring
+  have cs := Finset.sum_mul_sq_le_sq_mul_sq (range d) (fun a => ((g a : ℚ) : ℝ)) v
+  have hB : 0 ≤ ∑ a ∈ range d, v a ^ 2 := Finset.sum_nonneg fun a _ => sq_nonneg _
+  unfold euclid
+  apply Real.le_sqrt_of_sq_le
+  calc (∑ a ∈ range d, ((g a : ℚ) : ℝ) * v a) ^ 2
+      ≤ (∑ a ∈ range d, ((g a : ℚ) : ℝ) ^ 2) * ∑ a ∈ range d, v a ^ 2 := cs
+    _ ≤ 1 * ∑ a ∈ range d, v a ^ 2 := mul_le_mul_of_nonneg_right hgR hB
+    _ = ∑ a ∈ range d, v a ^ 2 := one_mul _
+
 /-- what the first-moment bound needs of a quadrature rule on the unit cell -/
 structure CellRuleFacts (t : List (List ℝ × ℝ)) (dim : ℕ) : Prop where
   nonneg : ∀ pw ∈ t, 0 ≤ pw.2
